@@ -216,13 +216,21 @@ func (runInfo *runInfoStruct) callExpr() {
 	// useCallSlice lets us know to use CallSlice instead of Call because of the format of the args
 	if useCallSlice {
 		if callExpr.Go {
-			go f.CallSlice(args)
+			go func() {
+				// a panic in the called Go function must not take the host down
+				defer func() { recover() }()
+				f.CallSlice(args)
+			}()
 			return
 		}
 		rvs = f.CallSlice(args)
 	} else {
 		if callExpr.Go {
-			go f.Call(args)
+			go func() {
+				// a panic in the called Go function must not take the host down
+				defer func() { recover() }()
+				f.Call(args)
+			}()
 			return
 		}
 		rvs = f.Call(args)
